@@ -273,6 +273,42 @@ def slow_generator(rng):
     return fails, {'scenario': 'slow_generator', 'stmin_ms': stmin_ms}
 
 
+def stmin_raised_under_limiter(rng):
+    """a block granted with separation time 0 is spread over several passes by the rate limiter; a ContinueToSend in mid-block raises the
+    separation time: from the next frame on, successive Consecutive Frames are at least that far apart"""
+    clock = VClock().install()
+    fails = []
+    try:
+        stamps, inbox = [], []
+        W = 0.0625
+        l = isotp.TransportLayerLogic(rxfn=lambda: inbox.pop(0) if inbox else None, txfn=lambda m: stamps.append((clock.ns, bytes(m.data))),
+                                      address=isotp.Address(isotp.AddressingMode.Normal_11bits, **PHYS),
+                                      params={'rate_limit_enable': True, 'rate_limit_max_bitrate': int(2 * 64 / W), 'rate_limit_window_size': W, 'stmin': 0})
+        l.send(bytes(range(80)))
+        l.process()
+        inbox.append(fcmsg(0, 0))
+        x_ms = rng.choice([100, 127])       # longer than the limiter window, so that the limiter alone cannot produce the gap
+        raised_at = None
+        for step in range(4000):
+            l.process()
+            if not l.transmitting():
+                break
+            ncf = sum(1 for t, d in stamps if d[0] >> 4 == 2)
+            if raised_at is None and ncf >= rng.choice([2, 3]):
+                inbox.append(fcmsg(0, x_ms))
+                raised_at = ncf
+            clock.tick(rng.choice([1000000, 5100000, 21000000]))
+        cfs = [t for t, d in stamps if d[0] >> 4 == 2]
+        gaps = [b - a for a, b in zip(cfs, cfs[1:])][max(0, (raised_at or 1) - 1):]
+        if l.transmitting() or raised_at is None:
+            fails.append(('transfer-not-completed', 'rate-limited transfer did not finish'))
+        elif gaps and min(gaps) < x_ms * 10**6:
+            fails.append(('stmin-not-respected', 'separation time raised from 0 to %d ms in mid-block under the rate limiter: later frames %d ns apart' % (x_ms, min(gaps))))
+    finally:
+        clock.uninstall()
+    return fails, {'scenario': 'stmin_raised_under_limiter'}
+
+
 # ---------------------------------------------------------------- C10
 def positional_process(rng):
     """process(rx_timeout, do_rx, do_tx) called with positional arguments on the threaded class (not started): same meaning as on the
@@ -407,6 +443,81 @@ def legacy_sleep_timing(rng):
     return fails, {'scenario': 'legacy_sleep_timing'}
 
 
+def stop_with_backlog(rng):
+    """stop() while the worker is busy (held in a slow txfn) and frames are waiting to be read, on a layer with a read timeout above
+    one second: stop() still returns within its bound and no thread of the layer survives it"""
+    import queue
+    q = queue.Queue()
+    base = set(threading.enumerate())
+    hold = threading.Event()
+
+    def rxfn(timeout):
+        try:
+            return q.get(timeout=timeout) if timeout else q.get_nowait()
+        except queue.Empty:
+            return None
+
+    def txfn(m):
+        hold.set()
+        _time.sleep(0.3)
+    a = isotp.Address(isotp.AddressingMode.Normal_11bits, txid=0x111, rxid=0x222)
+    L = isotp.TransportLayer(rxfn=rxfn, txfn=txfn, address=a, params={'blocksize': 0}, read_timeout=1.3)
+    fails = []
+    L.start()
+    _time.sleep(0.05)
+    q.put(isotp.CanMessage(arbitration_id=0x222, data=bytes([0x10, 40, 1, 2, 3, 4, 5, 6])))
+    hold.wait(2.0)                                  # the worker is inside txfn, emitting the Flow Control
+    for sn in (1, 2, 3):
+        q.put(isotp.CanMessage(arbitration_id=0x222, data=bytes([0x20 | sn]) + bytes(7)))
+    _time.sleep(0.1)                                # the reader thread has handed them on; the worker is still in txfn
+    t0 = _time.time()
+    L.stop()
+    el = _time.time() - t0
+    _time.sleep(0.05)
+    alive = [t for t in threading.enumerate() if t not in base and t.is_alive()]
+    if alive:
+        _time.sleep(0.4)
+        alive = [t for t in threading.enumerate() if t not in base and t.is_alive()]
+    if el > 2.5 or alive:
+        fails.append(('thread-leak' if alive else 'stop-not-bounded', 'read_timeout 1.3 s, stop() with frames waiting while the worker is in txfn: stop() took %.2f s, %d thread(s) of the layer still alive' % (el, len(alive))))
+        if alive:
+            _time.sleep(1.5)
+    return fails, {'scenario': 'stop_with_backlog'}
+
+
+# ---------------------------------------------------------------- C11
+def threaded_receiver_times_out(rng):
+    """a started layer that only receives: the last Consecutive Frame of a message is lost and nothing else arrives - the reception is
+    still abandoned with ConsecutiveFrameTimeoutError once the deadline has passed (the worker does not sleep through it)"""
+    import queue
+    q = queue.Queue()
+
+    def rxfn(timeout):
+        try:
+            return q.get(timeout=timeout) if timeout else q.get_nowait()
+        except queue.Empty:
+            return None
+    errors = []
+    a = isotp.Address(isotp.AddressingMode.Normal_11bits, txid=0x111, rxid=0x222)
+    L = isotp.TransportLayer(rxfn=rxfn, txfn=lambda m: None, address=a, params={'blocksize': 0, 'rx_consecutive_frame_timeout': 100},
+                             error_handler=errors.append, read_timeout=rng.choice([0.02, 0.05]))
+    fails = []
+    try:
+        L.start()
+        q.put(isotp.CanMessage(arbitration_id=0x222, data=bytes([0x10, 20, 1, 2, 3, 4, 5, 6])))
+        q.put(isotp.CanMessage(arbitration_id=0x222, data=bytes([0x21]) + bytes(7)))
+        t0 = _time.time()
+        while _time.time() - t0 < 1.5 and not errors:
+            _time.sleep(0.02)
+        names = [type(e).__name__ for e in errors]
+        _time.sleep(0.05)
+        if names != ['ConsecutiveFrameTimeoutError'] or L.is_rx_active() or L.available():
+            fails.append(('lost-frame-not-reported', 'last Consecutive Frame lost, silence for 1.5 s (timeout 100 ms): errors %s, is_rx_active()=%s, available()=%s' % (names[:3], L.is_rx_active(), L.available())))
+    finally:
+        L.stop()
+    return fails, {'scenario': 'threaded_receiver_times_out'}
+
+
 # ---------------------------------------------------------------- C15
 def bystander_layer(rng):
     """a second layer object lives in the same process (its limiter off, or on with its own budget) and is processed in turn: the limited
@@ -448,12 +559,301 @@ def bystander_layer(rng):
     return fails, {'scenario': 'bystander_layer', 'other_limited': bool(other)}
 
 
+# ---------------------------------------------------------------- C04
+def txfn_raises(rng):
+    """txfn raises on the frame after which the sender waits for a Flow Control (a full transmit buffer); the application catches the
+    exception and keeps calling process(): the wait still ends - FlowControlTimeoutError, request failed, next message sent"""
+    clock = VClock().install()
+    fails = []
+    try:
+        sent, inbox, errors = [], [], []
+        at = rng.choice(['ff', 'block_end'])
+        state = {'n': 0, 'raised': False}
+
+        def txfn(m):
+            d = bytes(m.data)
+            state['n'] += 1
+            hit = (at == 'ff' and d[0] >> 4 == 1) or (at == 'block_end' and d[0] >> 4 == 2 and (d[0] & 0xF) == 2)
+            if hit and not state['raised']:
+                state['raised'] = True
+                raise OSError('transmit buffer full')
+            sent.append(m)
+        l = isotp.TransportLayerLogic(rxfn=lambda: inbox.pop(0) if inbox else None, txfn=txfn, address=isotp.Address(isotp.AddressingMode.Normal_11bits, **PHYS),
+                                      params={'rx_flowcontrol_timeout': 50, 'stmin': 0}, error_handler=errors.append)
+        l.send(bytes(range(40)))
+        l.send(bytes([7, 7, 7]))
+        escaped = 0
+        for step in range(60):
+            try:
+                l.process()
+            except OSError:
+                escaped += 1
+            if at == 'block_end' and step == 1:
+                inbox.append(fcmsg(2, 0))       # a block of two, then the sender waits again
+            clock.tick(10 * 10**6)
+        names = [type(e).__name__ for e in errors]
+        last_sf = any(bytes(m.data)[:4] == bytes([3, 7, 7, 7]) for m in sent)
+        if l.transmitting() or 'FlowControlTimeoutError' not in names or not last_sf or escaped != 1:
+            fails.append(('transmitter-wedged', 'txfn raised once on the %s: exceptions escaped %d, errors %s, still transmitting=%s, next message sent=%s' % (
+                'First Frame' if at == 'ff' else 'last frame of a block', escaped, names[:3], l.transmitting(), last_sf)))
+    finally:
+        clock.uninstall()
+    return fails, {'scenario': 'txfn_raises', 'at': at}
+
+
+# ---------------------------------------------------------------- C15
+def slow_txfn(rng):
+    """txfn takes (virtual) time - a slow bus write - so the clock moves inside one process() pass: every frame is booked at the instant
+    it is handed over, and the sliding-window bound holds on those instants"""
+    W = 0.125
+    Wn = int(W * 10**9)
+    frame_bits = 64
+    per_window = rng.choice([3, 6])
+    clock = VClock().install()
+    fails = []
+    try:
+        stamps, inbox = [], []
+        costs = [rng.choice([0, 0, 0, 20, 40]) * 10**6 for _ in range(200)]
+
+        def txfn(m):
+            if bytes(m.data)[0] >> 4 != 3:
+                clock.tick(costs[len(stamps) % len(costs)])
+                stamps.append(clock.ns)
+        l = isotp.TransportLayerLogic(rxfn=lambda: inbox.pop(0) if inbox else None, txfn=txfn, address=isotp.Address(isotp.AddressingMode.Normal_11bits, **PHYS),
+                                      params={'rate_limit_enable': True, 'rate_limit_max_bitrate': int(per_window * frame_bits / W), 'rate_limit_window_size': W, 'stmin': 0})
+        l.send(bytes(range(120)))
+        l.process()
+        inbox.append(fcmsg(0, 0))
+        for step in range(3000):
+            l.process()
+            if not l.transmitting():
+                break
+            clock.tick(rng.choice([300000, 2 * 10**6, 5100000]))
+        bound = per_window * frame_bits + frame_bits
+        worst = max((sum(frame_bits for t in stamps[i:] if t - s0 <= Wn - 5 * 10**6) for i, s0 in enumerate(stamps)), default=0)
+        if l.transmitting():
+            fails.append(('transfer-stalled', 'a 120-byte transfer with a slow txfn did not finish'))
+        elif worst > bound:
+            fails.append(('burst-exceeds-budget', 'txfn taking up to 40 ms: %d bits handed over within one window, budget %d + one frame' % (worst, per_window * frame_bits)))
+    finally:
+        clock.uninstall()
+    return fails, {'scenario': 'slow_txfn', 'per_window': per_window}
+
+
+# ---------------------------------------------------------------- C03 / C06
+def fc_not_throttled(rng):
+    """the rate limiter applies to the data the layer sends, not to the Flow Control it owes: with the window used up by its own
+    frames, an incoming segmented message is still answered at once and received without any error"""
+    clock = VClock().install()
+    fails = []
+    try:
+        sent, inbox, errors = [], [], []
+        l = mk({'rate_limit_enable': True, 'rate_limit_max_bitrate': 64, 'rate_limit_window_size': 2.0, 'blocksize': rng.choice([0, 2]), 'rx_consecutive_frame_timeout': 300},
+               clock, sent, inbox, errors)
+        l.send(bytes(7)); l.send(bytes(7))
+        l.process()
+        clock.tick(100 * 10**6)
+        n = 30
+        payload = bytes(rng.getrandbits(8) for _ in range(n))
+        frames = [bytes([0x10, n]) + payload[:6]]
+        rest, sn = payload[6:], 1
+        while rest:
+            frames.append(bytes([0x20 | sn]) + rest[:7]); rest, sn = rest[7:], (sn + 1) & 0xF
+        got = None
+        for f in frames:
+            inbox.append(isotp.CanMessage(arbitration_id=0x222, data=f))
+            l.process()
+            clock.tick(100 * 10**6)
+        l.process()
+        got = l.recv()
+        fcs = [bytes(m.data) for m in sent if bytes(m.data)[0] >> 4 == 3]
+        if got is None or bytes(got) != payload or errors or not fcs:
+            fails.append(('reception-disturbed-by-rate-limiter', 'window used up by own frames, then a %d-byte message arrives: delivered=%s, Flow Controls sent %d, errors %s' % (
+                n, got is not None, len(fcs), [type(e).__name__ for e in errors[:3]])))
+    finally:
+        clock.uninstall()
+    return fails, {'scenario': 'fc_not_throttled'}
+
+
+def very_long_reception(rng):
+    """one reception of more than 65536 Consecutive Frames with a block size that is not a power of two: a Flow Control after the First
+    Frame and after every blocksize-th Consecutive Frame, none elsewhere, the payload delivered whole"""
+    bs = rng.choice([3, 5, 7])
+    ncf = 65536 + rng.choice([40, 300])
+    n = 6 + 7 * ncf
+    clock = VClock().install()
+    fails = []
+    try:
+        sent, inbox, errors = [], [], []
+        l = mk({'blocksize': bs, 'max_frame_size': n, 'stmin': 0}, clock, sent, inbox, errors)
+        inbox.append(isotp.CanMessage(arbitration_id=0x222, data=bytes([0x10, 0]) + n.to_bytes(4, 'big') + bytes([0xA0, 0xA1])))
+        # the First Frame of the escape form carries 2 payload bytes on an 8-byte frame
+        n_total = 2 + 7 * ncf
+        inbox[0] = isotp.CanMessage(arbitration_id=0x222, data=bytes([0x10, 0]) + n_total.to_bytes(4, 'big') + bytes([0xA0, 0xA1]))
+        l.params.set('max_frame_size', n_total)
+        l.process()
+        bad = None
+        for k in range(1, ncf + 1):
+            before = len(sent)
+            inbox.append(isotp.CanMessage(arbitration_id=0x222, data=bytes([0x20 | (k & 0xF)]) + bytes([k & 0xFF] * 7)))
+            l.process()
+            want = 1 if (k % bs == 0 and k != ncf) else 0
+            if len(sent) - before != want and bad is None:
+                bad = (k, len(sent) - before, want)
+                break
+        got = l.recv() if bad is None else None
+        if bad is not None or errors or got is None or len(got) != n_total:
+            fails.append(('flow-control-differs', 'reception of %d Consecutive Frames, blocksize %d: %s; errors %s; delivered %s bytes of %d' % (
+                ncf, bs, 'after Consecutive Frame %d the layer emitted %d frames, expected %d' % bad if bad else 'flow control as expected',
+                [type(e).__name__ for e in errors[:2]], None if got is None else len(got), n_total)))
+    finally:
+        clock.uninstall()
+    return fails, {'scenario': 'very_long_reception', 'bs': bs, 'ncf': ncf}
+
+
+# ---------------------------------------------------------------- C03 (threaded)
+def idle_stop_receiving_threaded(rng):
+    """stop_receiving() on a started layer that is receiving nothing is a no-op: the next segmented message, sent slowly (gaps longer than
+    the read timeout), is delivered"""
+    import queue
+    qab, qba = queue.Queue(), queue.Queue()
+
+    def rx(q):
+        def f(timeout):
+            try:
+                return q.get(timeout=timeout) if timeout else q.get_nowait()
+            except queue.Empty:
+                return None
+        return f
+    b = isotp.Address(isotp.AddressingMode.Normal_11bits, txid=0x222, rxid=0x111)
+    B = isotp.TransportLayer(rxfn=rx(qab), txfn=qba.put, address=b, params={'blocksize': 0}, read_timeout=0.02)
+    fails = []
+    errors = []
+    try:
+        B.start()
+        B.stop_receiving()
+        _time.sleep(0.05)
+        n = 20
+        payload = bytes(range(n))
+        frames = [bytes([0x10, n]) + payload[:6], bytes([0x21]) + payload[6:13], bytes([0x22]) + payload[13:20]]
+        for f in frames:
+            qab.put(isotp.CanMessage(arbitration_id=0x111, data=f))
+            _time.sleep(0.08)
+        got = B.recv(block=True, timeout=2.0)
+        if got is None or bytes(got) != payload:
+            fails.append(('delivery-differs', 'stop_receiving() while idle on a started layer, then a slow 20-byte message: delivered %s' % (None if got is None else bytes(got).hex())))
+    finally:
+        B.stop()
+    return fails, {'scenario': 'idle_stop_receiving_threaded'}
+
+
+# ---------------------------------------------------------------- C07
+def legacy_rx_deadline(rng):
+    """a v1.x style rxfn() without parameter in which time passes all the same (it wraps a blocking read): the N_Cr deadline is judged
+    after every frame read, also for the second and later frames of one process() pass"""
+    clock = VClock().install()
+    fails = []
+    try:
+        sent, errors = [], []
+        n = 30
+        payload = bytes(range(n))
+        frames = [bytes([0x10, n]) + payload[:6]]
+        rest, sn = payload[6:], 1
+        while rest:
+            frames.append(bytes([0x20 | sn]) + rest[:7]); rest, sn = rest[7:], (sn + 1) & 0xF
+        late = rng.random() < 0.5
+        script = [(0, frames[0]), (0, frames[1]), ((150 if late else 50) * 10**6, frames[2])] + [(0, f) for f in frames[3:]]
+
+        def rxfn():
+            if not script:
+                return None
+            wait, f = script.pop(0)
+            clock.tick(wait)            # the read blocked for that long
+            return isotp.CanMessage(arbitration_id=0x222, data=f)
+        l = isotp.TransportLayerLogic(rxfn=rxfn, txfn=sent.append, address=isotp.Address(isotp.AddressingMode.Normal_11bits, **PHYS),
+                                      params={'blocksize': 0, 'rx_consecutive_frame_timeout': 100}, error_handler=errors.append)
+        for _ in range(6):
+            l.process()
+        got = l.recv()
+        names = [type(e).__name__ for e in errors]
+        if late and ('ConsecutiveFrameTimeoutError' not in names or got is not None):
+            fails.append(('missed-consecutive-frame-timeout', 'legacy rxfn(), third frame read 150 ms after the second within one pass (timeout 100 ms): errors %s, delivered %s' % (names[:3], got is not None)))
+        if not late and (names or got is None or bytes(got) != payload):
+            fails.append(('timeout-before-deadline', 'legacy rxfn(), gap 50 ms (timeout 100 ms): errors %s, delivered %s' % (names[:3], got is not None)))
+    finally:
+        clock.uninstall()
+    return fails, {'scenario': 'legacy_rx_deadline', 'late': late}
+
+
+# ---------------------------------------------------------------- C19 / C20
+def failed_kernel_bind(rng):
+    """the kernel refuses bind() (OSError, e.g. an unknown interface): the wrapper is not bound - the option setters still write their
+    bytes, a later bind() with a good interface works and only then are the setters refused"""
+    import fake_kernel
+    undo = fake_kernel.install()
+    fails = []
+    try:
+        mode = rng.choice(['Normal_11bits', 'Extended_11bits', 'Mixed_29bits'])
+        M = isotp.AddressingMode
+        if mode == 'Normal_11bits':
+            addr = isotp.Address(M.Normal_11bits, txid=0x111, rxid=0x222)
+        elif mode == 'Extended_11bits':
+            addr = isotp.Address(M.Extended_11bits, txid=0x111, rxid=0x222, target_address=0x10, source_address=0x20)
+        else:
+            addr = isotp.Address(M.Mixed_29bits, target_address=0x10, source_address=0x20, address_extension=0x99)
+        sock = isotp.socket()
+        fk = sock._socket if hasattr(sock, '_socket') else sock.real_socket()
+        orig_bind = fk.bind
+        state = {'fail': True}
+
+        def bind(a):
+            if state['fail']:
+                fk.log.append(('bind-refused', a))
+                raise OSError(19, 'No such device')
+            return orig_bind(a)
+        fk.bind = bind
+        try:
+            sock.bind('nosuchcan', addr)
+            first = 'ok'
+        except OSError:
+            first = 'oserror'
+        except Exception as e:
+            first = type(e).__name__
+        n0 = len(fk.log)
+        try:
+            sock.set_opts(txpad=0x33)
+            sock.set_fc_opts(bs=4)
+            setters = 'ok'
+        except Exception as e:
+            setters = type(e).__name__
+        wrote = sum(1 for c in fk.log[n0:] if c[0] == 'setsockopt')
+        state['fail'] = False
+        try:
+            sock.bind('vcan0', addr)
+            second = 'ok'
+        except Exception as e:
+            second = type(e).__name__
+        try:
+            sock.set_opts(txpad=0x44)
+            after = 'ok'
+        except RuntimeError:
+            after = 'runtimeerror'
+        except Exception as e:
+            after = type(e).__name__
+        if (first, setters, second, after) != ('oserror', 'ok', 'ok', 'runtimeerror') or wrote < 2 or not sock.bound:
+            fails.append(('wrapper-state-after-refused-bind', '%s address, kernel bind() refused once: bind -> %s, setters -> %s (%d setsockopt), second bind -> %s, setter after it -> %s, bound=%s; '
+                          'expected oserror / ok (>= 2) / ok / runtimeerror / True' % (mode, first, setters, wrote, second, after, sock.bound)))
+    finally:
+        undo()
+    return fails, {'scenario': 'failed_kernel_bind'}
+
+
 SCENARIOS = {
-    'C01': [reload_midstream], 'C04': [reload_midstream], 'C02': [tuple_iterable], 'C17': [tuple_iterable], 'C03': [blocked_recv],
-    'C05': [clear_midreception], 'C07': [retimed], 'C08': [slow_generator], 'C10': [positional_process], 'C12': [set_address_standby],
-    'C13': [send_before_start], 'C14': [legacy_sleep_timing], 'C15': [bystander_layer],
+    'C01': [reload_midstream], 'C04': [reload_midstream, txfn_raises], 'C02': [tuple_iterable], 'C17': [tuple_iterable], 'C03': [blocked_recv, fc_not_throttled, idle_stop_receiving_threaded, very_long_reception], 'C06': [fc_not_throttled],
+    'C05': [clear_midreception], 'C07': [retimed, legacy_rx_deadline], 'C08': [slow_generator, stmin_raised_under_limiter], 'C10': [positional_process, very_long_reception], 'C12': [set_address_standby],
+    'C13': [send_before_start], 'C14': [legacy_sleep_timing, stop_with_backlog], 'C11': [threaded_receiver_times_out], 'C15': [bystander_layer, slow_txfn], 'C19': [failed_kernel_bind], 'C20': [failed_kernel_bind],
 }
-REPS = {'blocked_recv': 4, 'send_before_start': 3, 'legacy_sleep_timing': 1, 'positional_process': 1}
+REPS = {'very_long_reception': 1, 'stop_with_backlog': 1, 'threaded_receiver_times_out': 2, 'idle_stop_receiving_threaded': 2, 'failed_kernel_bind': 6, 'blocked_recv': 4, 'send_before_start': 3, 'legacy_sleep_timing': 1, 'positional_process': 1}
 TEXT = {f.__name__: ' '.join(f.__doc__.split()) for fs in SCENARIOS.values() for f in fs}
 
 
